@@ -35,7 +35,9 @@ func snapToGridFloat64(f float64, dp int) float64 {
 	case dp > 0:
 		scale := math.Pow10(dp)
 		scaled := f * scale
-		if scaled > math.MaxFloat64 {
+		if math.IsInf(scaled, 0) || math.IsNaN(scaled) {
+			// The scaled value overflowed (in either direction), or the
+			// scale itself overflowed to infinity and f is zero.
 			return f
 		}
 		return math.Round(scaled) / scale
